@@ -1,7 +1,10 @@
 package checks
 
 import (
+	"encoding/hex"
 	"fmt"
+	"os"
+	"strings"
 	"testing"
 
 	"pgregory.net/rapid"
@@ -82,10 +85,32 @@ func c09Classes(c SeqCase, st SeqStats) []string {
 func TestC09(t *testing.T) {
 	ev := newEvidence("C09", "exploration", c09Rule)
 	defer ev.Write()
+	if envReplay != "" && strings.HasPrefix(readReplayRaw(envReplay).Signature, "interrupted-translation") {
+		var rp TransReplay
+		readReplay(envReplay, &rp)
+		ev.Record(rp, true)
+		for _, v := range checkTransImage(rp) {
+			if ev.Report(v, rp) {
+				t.Fatalf("replay: %v", v)
+			}
+		}
+		return
+	}
 	if replaySeq(t, ev, seqOpts{}) {
 		return
 	}
-	regressSeq(t, ev, seqOpts{})
+	for _, f := range regressFiles("C09") {
+		if strings.HasPrefix(readReplayRaw(f).Signature, "interrupted-translation") {
+			continue
+		}
+		var c SeqCase
+		readReplay(f, &c)
+		st, v := runSeq(c, seqOpts{})
+		ev.Record(c, true, append(seqClasses(c, st), "regression-case")...)
+		if v != nil && ev.Report(v, c) {
+			t.Fatalf("regression case %s: %v", f, v)
+		}
+	}
 	pairs := map[string]bool{}
 	prop := func(pair *[2]uint8) func(rt *rapid.T) {
 		return func(rt *rapid.T) {
@@ -127,6 +152,205 @@ func TestC09(t *testing.T) {
 		setRapidChecks(1)
 		rapid.Check(t, prop(&p))
 	}
-	ev.Extra["distinct_bit_pairs"] = len(pairs)
+	ev.Extra["bit_pairs_seen_summed_over_shards"] = len(pairs)
+	// Crash clause.
+	for _, f := range regressFiles("C09") {
+		r := readReplayRaw(f)
+		if !strings.HasPrefix(r.Signature, "interrupted-translation") {
+			continue
+		}
+		var rp TransReplay
+		readReplay(f, &rp)
+		if rp.Workload != nil {
+			exploreTransCrash(ev, *rp.Workload, true, func(f2 string, a ...any) { t.Fatalf("regression case "+f+": "+f2, a...) })
+		}
+	}
+	setRapidChecks(budget(800, 400))
+	rapid.Check(t, func(rt *rapid.T) {
+		if pastDeadline() {
+			ev.Skip()
+			return
+		}
+		exploreTransCrash(ev, genTransCrash(rt), thorough(), rt.Fatalf)
+	})
 	ev.finish(t)
+}
+
+// ---------------------------------------------------------------------------
+// Crash clause: an interrupted re-bucketing never leaves a store that opens
+// successfully with fewer keys than before.
+
+// TransCrashCase is a history, the bit size to translate to, and which crash
+// states inside the translation to examine (quick tier).
+type TransCrashCase struct {
+	Seq     SeqCase `json:"seq"`
+	NewBits uint8   `json:"new_bits"`
+	Picks   []int   `json:"picks"`
+}
+
+// TransReplay is a self-contained crash image of an interrupted translation.
+type TransReplay struct {
+	Cfg      Config            `json:"cfg"`
+	NewBits  uint8             `json:"new_bits"`
+	Keys     []KeySpec         `json:"keys"`
+	Model    map[string]string `json:"model_hex"` // digest hex -> value hex
+	Point    string            `json:"point"`
+	Torn     string            `json:"torn"`
+	Image    map[string]string `json:"image_hex"`
+	Workload *TransCrashCase   `json:"workload,omitempty"`
+}
+
+func genTransCrash(t *rapid.T) TransCrashCase {
+	var c TransCrashCase
+	c.Seq.Cfg = genConfig(t, cfgGenOpts{smallBits: true, smallFiles: true})
+	small := []uint8{8, 9, 10, 12, 15, 16}
+	c.Seq.Cfg.Bits = small[rapid.IntRange(0, len(small)-1).Draw(t, "bits1")]
+	c.NewBits = small[rapid.IntRange(0, len(small)-1).Draw(t, "bits2")]
+	if c.NewBits == c.Seq.Cfg.Bits {
+		c.NewBits = c.Seq.Cfg.Bits + 1
+	}
+	c.Seq.Keys = genKeys(t, c.Seq.Cfg, 4, 12)
+	m := genMix(t, c09Kinds, c09MaxW)
+	c.Seq.Ops = genOps(t, m, len(c.Seq.Keys), c.Seq.Cfg, 6, 30, false)
+	c.Picks = rapid.SliceOfN(rapid.IntRange(0, 1<<20), 6, 6).Draw(t, "picks")
+	return c
+}
+
+// checkTransImage opens the crash image with the new and with the old bit
+// size; an open may fail, but a successful open must show every key.
+func checkTransImage(rp TransReplay) []*Violation {
+	var out []*Violation
+	site := crashSite(RecoveryReplay{Point: rp.Point, Torn: rp.Torn})
+	for _, bits := range []uint8{rp.NewBits, rp.Cfg.Bits} {
+		which := "new-bits"
+		if bits == rp.Cfg.Bits {
+			which = "old-bits"
+		}
+		dir := newScratch("tr")
+		unhexImage(rp.Image).writeTo(dir)
+		cfg := rp.Cfg
+		cfg.Bits = bits
+		v := guard(-1, "translation-recovery", func() *Violation {
+			s, err := openStore(dir, cfg)
+			if err != nil {
+				return nil // refusing to open is allowed
+			}
+			defer s.Close()
+			missing, wrong := 0, 0
+			var example string
+			for _, ks := range rp.Keys {
+				want, present := rp.Model[hex.EncodeToString(ks.Digest)]
+				if !present {
+					continue
+				}
+				got, found, err := s.Get(ks.Encode(cfg.Primary, false))
+				if err != nil || !found {
+					missing++
+					example = hex.EncodeToString(ks.Digest)
+				} else if hex.EncodeToString(got) != want {
+					wrong++
+					example = hex.EncodeToString(ks.Digest)
+				}
+			}
+			if missing+wrong > 0 {
+				sym := "some-keys-missing"
+				if missing == len(rp.Model) {
+					sym = "opens-empty"
+				}
+				return viol("interrupted-translation-lost-keys|"+site+"|"+which+"-"+sym, -1, "store opened successfully with %d bits after a re-bucketing to %d bits was interrupted, but %d of %d keys are missing and %d read a wrong value (e.g. %s)", bits, rp.NewBits, missing, len(rp.Model), wrong, example)
+			}
+			return nil
+		})
+		os.RemoveAll(dir)
+		if v != nil {
+			out = append(out, v)
+		}
+	}
+	return out
+}
+
+func exploreTransCrash(ev *Evidence, c TransCrashCase, exhaustive bool, fatalf func(string, ...any)) {
+	var model map[string][]byte
+	var dir string
+	o := seqOpts{KeepDir: true, NoFinalIter: true}
+	o.Epilogue = func(r *seqRunner, step int) *Violation {
+		model = r.model
+		dir = r.dir
+		return nil
+	}
+	_, v := runSeq(c.Seq, o)
+	if dir != "" {
+		defer os.RemoveAll(dir)
+	}
+	if v != nil || dir == "" {
+		ev.Class("crash:workload-failed(foreign)", 1)
+		return
+	}
+	rec := newCrashRecorder(dir)
+	rec.curOp = 0
+	rec.capture("before-translation", true)
+	rec.install()
+	cfg2 := c.Seq.Cfg
+	cfg2.Bits = c.NewBits
+	s, err := openStore(dir, cfg2)
+	rec.uninstall()
+	if err != nil {
+		ev.Class("crash:translation-failed(foreign)", 1)
+		return
+	}
+	rec.capture("after-translation", true)
+	s.Close()
+	hexModel := map[string]string{}
+	for d, v := range model {
+		hexModel[hex.EncodeToString([]byte(d))] = hex.EncodeToString(v)
+	}
+	var specs []*tornSpec
+	for i := 0; i+1 < len(rec.snaps); i++ {
+		spec, _, ok := rec.step(i)
+		if !ok {
+			ev.Class("crash:hook-gap "+rec.meta[i].Point+" -> "+rec.meta[i+1].Point, 1)
+			continue
+		}
+		if spec != nil && spec.count() > 0 {
+			specs = append(specs, spec)
+		}
+	}
+	check := func(st crashState) {
+		wl := c
+		rp := TransReplay{Cfg: c.Seq.Cfg, NewBits: c.NewBits, Keys: c.Seq.Keys, Model: hexModel, Point: st.Point, Torn: st.Torn, Image: hexImage(st.Image), Workload: &wl}
+		vs := checkTransImage(rp)
+		inside := strings.HasPrefix(st.Point, "translate.") || strings.HasPrefix(st.Point, "move.")
+		ev.Record(struct {
+			H string
+			B uint8
+		}{st.Image.hash(), c.NewBits}, inside && len(model) >= 6, "crash:state", "crash:at:"+strings.SplitN(st.Point, ".", 2)[0])
+		for _, v := range vs {
+			if ev.Report(v, rp) {
+				fatalf("%v", v)
+			}
+		}
+	}
+	if exhaustive {
+		for n := 0; n < len(rec.snaps); n++ {
+			check(rec.pointState(n))
+		}
+		for _, spec := range specs {
+			stride := 1
+			if tornFileClass(spec.file) == "bucket-snapshot" {
+				stride = spec.count()/4 + 1
+			}
+			for j := 0; j < spec.count(); j += stride {
+				check(rec.tornState(spec, j))
+			}
+		}
+		return
+	}
+	for j, p := range c.Picks {
+		if j%3 != 2 || len(specs) == 0 {
+			check(rec.pointState(p % len(rec.snaps)))
+		} else {
+			spec := specs[p%len(specs)]
+			check(rec.tornState(spec, (p/7919)%spec.count()))
+		}
+	}
 }
